@@ -335,6 +335,44 @@ func c20EIRPEncode(c *Ctx, ev *tables.Evaluator, tbl []float64) {
 	seen := map[ssa.Value]bool{}
 	ncmp := 0
 	var visit func(v ssa.Value)
+	var visitAddr func(a ssa.Value)
+	seenAddr := map[ssa.Value]bool{}
+	// visitAddr: a is the address of a cell that holds the power (a local, or a captured free variable)
+	visitAddr = func(a ssa.Value) {
+		if seenAddr[a] {
+			return
+		}
+		seenAddr[a] = true
+		refs := a.Referrers()
+		if refs == nil {
+			return
+		}
+		for _, ins := range *refs {
+			switch x := ins.(type) {
+			case *ssa.DebugRef:
+			case *ssa.UnOp:
+				if x.Op == token.MUL {
+					visit(x)
+				}
+			case *ssa.Store:
+				if x.Addr != a {
+					bad = append(bad, fmt.Sprintf("%s: address of the power stored", P.Rel(x.Pos())))
+				} else if !seen[x.Val] {
+					bad = append(bad, fmt.Sprintf("%s: the local holding the power is overwritten", P.Rel(x.Pos())))
+				}
+			case *ssa.MakeClosure:
+				if fnc, ok := x.Fn.(*ssa.Function); ok {
+					for i, b := range x.Bindings {
+						if b == a && i < len(fnc.FreeVars) {
+							visitAddr(fnc.FreeVars[i])
+						}
+					}
+				}
+			default:
+				bad = append(bad, fmt.Sprintf("%s: address of the power used by %T", P.Rel(ins.Pos()), ins))
+			}
+		}
+	}
 	visit = func(v ssa.Value) {
 		if seen[v] {
 			return
@@ -353,6 +391,22 @@ func c20EIRPEncode(c *Ctx, ev *tables.Evaluator, tbl []float64) {
 					visit(x)
 				} else {
 					bad = append(bad, fmt.Sprintf("%s: conversion to %s", P.Rel(x.Pos()), x.Type()))
+				}
+			case *ssa.Store:
+				// spilled into a local that a closure captures: follow the loads of that local
+				if al, ok := x.Addr.(*ssa.Alloc); ok && x.Val == v {
+					visitAddr(al)
+				} else {
+					bad = append(bad, fmt.Sprintf("%s: stored to memory", P.Rel(x.Pos())))
+				}
+			case *ssa.MakeClosure:
+				// captured by value: the free variable of the closure stands for the power
+				if fnc, ok := x.Fn.(*ssa.Function); ok {
+					for i, b := range x.Bindings {
+						if b == v && i < len(fnc.FreeVars) {
+							visit(fnc.FreeVars[i])
+						}
+					}
 				}
 			case *ssa.BinOp:
 				switch x.Op {
@@ -400,7 +454,7 @@ func c20EIRPEncode(c *Ctx, ev *tables.Evaluator, tbl []float64) {
 		res, ok := ev.Call(fd, map[string]tables.Value{fd.Type.Params.List[0].Names[0].Name: tables.Float{V: rp.x}})
 		key := "lorawan." + fnName + "/order-type/" + rp.name
 		if !ok || len(res) != 1 {
-			r.Unknown("R6.eirp-encode", key, P.Rel(fn.Pos()), "constant propagation decides the result", "outside the evaluator's subset: "+strings.Join(ev.Diag, "; "))
+			r.Unknown("R6.eirp-encode", key, P.Rel(fn.Pos()), "constant propagation decides the result", "outside the evaluator's subset: "+firstN(ev.Diag, 3))
 			continue
 		}
 		got, isInt := tables.AsInt(res[0])
@@ -455,4 +509,11 @@ func derivesFromGlobal(v ssa.Value, g *ssa.Global, seen map[ssa.Value]bool) bool
 		return n > 0
 	}
 	return false
+}
+
+func firstN(xs []string, n int) string {
+	if len(xs) > n {
+		xs = xs[:n]
+	}
+	return strings.Join(xs, "; ")
 }
